@@ -16,7 +16,7 @@ from ..common import ToolError
 from ..extract import base
 
 NEEDS = ["driver"]
-TOK = {"TXT": "word", "NL": "\n", "BC": "*/", "BO": "/*", "LC": "//", "TDQ": '"""', "TSQ": "'''", "BS": "\\", "HASH": "#", "BT": "`", "DQ": '"'}
+TOK = {"TXT": "word", "NL": "\n", "BC": "*/", "BO": "/*", "LC": "//", "TDQ": '"""', "DDQ": '""', "QDQ": '""""', "PDQ": '"""""', "TSQ": "'''", "BS": "\\", "HASH": "#", "BT": "`", "DQ": '"'}
 POSITIONS = ["type", "field", "variant", "vfield", "alias", "uvariant", "tagged"]
 MARK = re.compile(r"D\d+x")
 
